@@ -119,3 +119,6 @@ if __name__ == '__main__':
             do_import()
     else:
         run(sys.argv[2:])
+        # the generated part of the model was last written from a patched tree: regenerate it from the restored /repo
+        for tool in ('translate.py', 'py2lean.py'):
+            sh([PY, os.path.join(ROOT, 'tools', tool)], env=dict(os.environ, HPACK_REPO='/repo'))
